@@ -1,6 +1,7 @@
 """C19 — PKGPATH accepts only category/package forms; Depend splits on a single ':' (structural clauses)."""
 import itertools
 from lib import *
+import os
 
 EXPLANATION = (
     "D1 acceptance decision table of PkgPath::new over (component count class 2/4/other x component kinds): 5^2 + 5^4 + 1 rows, Ok iff (Normal,Normal) or (ParentDir,ParentDir,Normal,Normal); "
@@ -90,32 +91,46 @@ def run(ctx):
                       "a path returning Ok does not fix the number of components to 2 or 4 (consistent lengths: %s)" % cand[:6], fn_span(body), nontrivial=False)
             pushes = [e for e in p.events if ev_is(e, "PathBuf::push")]
             inp = lambda t: is_call(t, "PathBuf as std::convert::From", "::from", "PathBuf::from") and strip_refs(call_args(t)[0]) == ("param", 1)
+
+            def concat(t):
+                """(base, tail) when t is a path built as base followed by tail: `let mut f = PathBuf::from(base); f.push(tail)` or `Path::new(base).join(tail)`"""
+                t0 = strip_refs(t)
+                if is_call(t0, "Path::join", "PathBuf::join") and len(call_args(t0)) == 2:
+                    b0 = call_args(t0)[0]
+                    while isinstance(b0, tuple) and b0 and b0[0] in ("ref", "deref"):
+                        b0 = b0[1]
+                    if is_call(b0, "Path::new", "::from", "PathBuf::from") and call_args(b0):
+                        b0 = call_args(b0)[0]
+                    return b0, call_args(t0)[1]
+                if isinstance(t0, tuple) and t0 and t0[0] == "mutated":
+                    mine = [e for e in pushes if isinstance(e.args[0], tuple) and e.args[0][0] == "refmut" and isinstance(e.args[0][1], tuple) and e.args[0][1][:2] == ("loc", t0[1])]
+                    if len(mine) == 1 and len(pushes) == 1:
+                        base = mine[0].args[0][1][2]
+                        if is_call(base, "::from", "PathBuf::from", "Path::new") and call_args(base):
+                            return call_args(base)[0], mine[0].args[1]
+                return None
+
+            def comp_i(t, i):
+                """the text of component i: c[i].as_os_str(), or the name bound by a Normal(name) pattern on element i"""
+                cs = find_calls(t, "Component::as_os_str")
+                if len(cs) == 1:
+                    el = element_of(call_args(cs[0])[0])
+                    return el is not None and comps_vec(el[0]) and el[1] == i
+                nm = [x for x in subterms(t) if x[0] == "field" and x[2] == 0 and isinstance(x[1], tuple) and x[1][0] == "downcast" and x[1][2] == "Normal"]
+                if len(nm) == 1:
+                    el = element_of(nm[0][1][1])
+                    return el is not None and comps_vec(el[0]) and el[1] == i
+                return False
             if n == 2:
-                ok = inp(flds.get("short")) and isinstance(flds.get("full"), tuple) and flds["full"][0] == "mutated" and len(pushes) == 1
-                if ok:
-                    e = pushes[0]
-                    base = e.args[0][1][2] if isinstance(e.args[0], tuple) and e.args[0][0] == "refmut" else None
-                    ok = is_call(base, "::from") and const_str(call_args(base)[0]) == "../../" and mentions(e.args[1], lambda s: inp(s)) and flds["full"][1] == e.args[0][1][1]
+                cc = concat(flds.get("full"))
+                ok = inp(flds.get("short")) and cc is not None and const_str(cc[0]) == "../../" and mentions(cc[1], lambda s: inp(s))
                 ctx.check(ok, "D2-VALUES", NEW, "category/package", "short = input, full = \"../../\" + input",
                           "for category/package the stored paths are short=%s full=%s" % (term_str(flds.get("short")), term_str(flds.get("full"))), fn_span(body))
             elif n == 4:
-                ok = inp(flds.get("full")) and isinstance(flds.get("short"), tuple) and flds["short"][0] == "mutated" and len(pushes) == 1
-                if ok:
-                    e = pushes[0]
-                    base = e.args[0][1][2]
-
-                    def comp_i(t, i):
-                        """the text of component i: c[i].as_os_str(), or the name bound by a Normal(name) pattern on element i"""
-                        cs = find_calls(t, "Component::as_os_str")
-                        if len(cs) == 1:
-                            el = element_of(call_args(cs[0])[0])
-                            return el is not None and comps_vec(el[0]) and el[1] == i
-                        nm = [x for x in subterms(t) if x[0] == "field" and x[2] == 0 and isinstance(x[1], tuple) and x[1][0] == "downcast" and x[1][2] == "Normal"]
-                        if len(nm) == 1:
-                            el = element_of(nm[0][1][1])
-                            return el is not None and comps_vec(el[0]) and el[1] == i
-                        return False
-                    ok = is_call(base, "::from") and comp_i(call_args(base)[0], 2) and comp_i(e.args[1], 3) and flds["short"][1] == e.args[0][1][1]
+                cc = concat(flds.get("short"))
+                ok = inp(flds.get("full")) and cc is not None and comp_i(cc[0], 2) and comp_i(cc[1], 3)
+                if not ok and os.environ.get("VERIF_DEBUG"):
+                    print("DEBUG", inp(flds.get("full")), cc is not None, cc and comp_i(cc[0], 2), cc and comp_i(cc[1], 3), term_str(cc[0])[:200] if cc else None)
                 ctx.check(ok, "D2-VALUES", NEW, "../../category/package", "short = component 2 / component 3, full = input",
                           "for ../../category/package the stored paths are short=%s full=%s" % (term_str(flds.get("short")), term_str(flds.get("full"))), fn_span(body))
     for tr in ("std::cmp::PartialEq", "std::cmp::Eq", "std::hash::Hash", "std::cmp::Ord", "std::cmp::PartialOrd"):
@@ -139,26 +154,21 @@ def run(ctx):
         rets = ret_paths(ps)
         oks = [p for p in rets if unwrap_ok(p.end[1]) is not None]
         ctx.floor("D3-DEPEND", DN, "Ok paths", len(oks), 1)
+        isp1 = lambda t: t == ("param", 1)
         for p in oks:
             v = unwrap_ok(p.end[1])
             a = agg_variant(v)
             flds = dict(zip(v[5], a[2]))
             pat = find_calls(flds.get("pattern"), "pattern::Pattern::new")
             pth = find_calls(flds.get("pkgpath"), FS, NEW)
-            ok = bool(pat) and bool(pth)
+            st, is0, is1 = two_part_split(p, isp1, ":")
+            ok = bool(pat) and bool(pth) and st == "two"
             if ok:
-                s0, s1 = split_part(call_args(pat[0])[0]), split_part(call_args(pth[0])[0])
-                ok = bool(s0) and bool(s1) and s0["index"] == 0 and s1["index"] == 1 and s0["sep"] == ":" and s1["sep"] == ":" and s0["api"] == "split" and s0["subject"] == ("param", 1) and s0["vec"] == s1["vec"]
-                ok = ok and has_try(flds["pattern"]) and has_try(flds["pkgpath"])
-                ln = [c for c in p.conds() if isinstance(c.term, tuple) and c.term[0] == "binop" and c.term[1] in ("Ne", "Eq") and is_call(c.term[2], "Vec::len")]
-                ok = ok and bool(ln) and const_int(ln[0].term[3]) == 2 and ((ln[0].fact == ("eq", True)) == (ln[0].term[1] == "Eq"))
+                ok = is0(call_args(pat[0])[0]) and is1(call_args(pth[0])[0]) and has_try(flds["pattern"]) and has_try(flds["pkgpath"])
             ctx.check(ok, "D3-DEPEND", DN, "ok-path", "exactly two ':'-separated parts: Pattern::new(part0)?, PkgPath::from_str(part1)?",
-                      "Depend::new does not build (Pattern::new(part 0)?, PkgPath(part 1)?) from an unbounded split on ':' with exactly two parts", fn_span(body))
-        inv = [p for p in rets if unwrap_err(p.end[1]) is not None and agg_variant(unwrap_err(p.end[1])) and agg_variant(unwrap_err(p.end[1]))[1] == "Invalid"]
-        ok = bool(inv)
-        for p in inv:
-            ln = [c for c in p.conds() if isinstance(c.term, tuple) and c.term[0] == "binop" and c.term[1] in ("Ne", "Eq") and is_call(c.term[2], "Vec::len")]
-            ok = ok and bool(ln) and const_int(ln[-1].term[3]) == 2 and ((ln[-1].fact == ("eq", True)) == (ln[-1].term[1] == "Ne"))
+                      "Depend::new does not build (Pattern::new(part 0)?, PkgPath(part 1)?) from a split of its input at ':' into exactly two parts (split status on the Ok path: %s)" % st, fn_span(body))
+        inv = [p for p in rets if unwrap_err(p.end[1]) is not None and agg_variant(unwrap_err(p.end[1])) and agg_variant(unwrap_err(p.end[1]))[1] == "Invalid" and not is_propagated_err(p.end[1])]
+        ok = bool(inv) and all(two_part_split(p, isp1, ":")[0] == "not-two" for p in inv)
         ctx.check(ok, "D3-DEPEND", DN, "invalid-path", "parts != 2 -> Err(Invalid)", "Err(Invalid) is not returned exactly when the ':' split does not give two parts", fn_span(body))
         errprop(ctx, DN, ps, body, rule="D3-ERRPROP", no_effects_after_error=(), floor=2)
 
